@@ -14,6 +14,16 @@ class Obj(object):
         self.n = n
 
 
+class ObjDelGC(object):
+    """payload whose finalizer runs a garbage collection: a collection in the middle of the
+    deallocation of the handle that owned it"""
+    fired = 0
+
+    def __del__(self):
+        ObjDelGC.fired += 1
+        gc.collect()
+
+
 class BA(bytearray):
     pass
 
@@ -551,6 +561,36 @@ class Run(object):
         else:
             self.out.probe('handle_is_only_owner_of_object')
 
+    def op_handle_delgc(self, viagc):
+        """a handle (or an ffi.gc wrapper) that is the only owner of an object whose __del__ collects:
+        everything that was cyclic garbage before dies in the middle of that deallocation"""
+        self.settle()
+        before = self.g.pending(self.roots())
+        f0 = ObjDelGC.fired
+        o = ObjDelGC()
+        if viagc:
+            # the object is owned by the destructor of an ffi.gc() wrapper (a bound method)
+            p = self.ffi.new('char[]', 8)
+            h = self.ffi.gc(p, lambda _p, o=o: None)
+            del p
+        else:
+            h = self.ffi.new_handle(o)
+            if self.ffi.from_handle(h) is not o:
+                raise Violation('C21.7', 'from_handle() did not return the object given to new_handle()')
+        del o
+        if ObjDelGC.fired != f0:
+            raise Violation('C21.7', 'an object owned by a live %s was released' % ('ffi.gc wrapper' if viagc else 'handle'))
+        del h
+        if ObjDelGC.fired != f0 + 1:
+            raise Violation('C21.7' if not viagc else 'C21.1',
+                            'dropping a %s released the object it owned %d times'
+                            % ('ffi.gc wrapper' if viagc else 'handle', ObjDelGC.fired - f0))
+        self._died(self.g.kill(before))
+        self.settle()
+        self.out.fault('collection_during_a_%s_deallocation' % ('gc_wrapper' if viagc else 'handle'))
+        if before:
+            self.out.probe('collect_with_pending_cyclic_garbage')
+
     def op_handle_cycle(self):
         """object that references its own handle: a cycle through the handle"""
         self.serial += 1
@@ -778,6 +818,8 @@ class Run(object):
             self.op_handle(op[1], op[2] if len(op) > 2 else 0)
         elif name == 'hcycle':
             self.op_handle_cycle()
+        elif name == 'hdelgc':
+            self.op_handle_delgc(op[1])
         elif name == 'fromh':
             self.op_fromh(op[1], op[2])
         elif name == 'deref':
@@ -833,7 +875,7 @@ class Run(object):
 
 
 OPS_W = [('new', 10), ('anew', 8), ('gc', 12), ('gcnone', 4), ('release', 10), ('frombuf', 8),
-         ('resize', 5), ('frombuf2', 3), ('handle', 5), ('hcycle', 1), ('fromh', 6), ('deref', 6), ('alias', 3), ('bufview', 3),
+         ('resize', 5), ('frombuf2', 3), ('handle', 5), ('hcycle', 1), ('hdelgc', 2), ('fromh', 6), ('deref', 6), ('alias', 3), ('bufview', 3),
          ('write', 6), ('read', 8), ('drop', 14), ('cycle', 5), ('collect', 6), ('churn', 3),
          ('gremlin', 2)]
 
@@ -910,6 +952,8 @@ class C21(core.Check):
                 ops.append(['handle', rng.chance(0.5), rng.randint(1, 12) if rng.chance(0.3) else 0])
             elif name == 'hcycle':
                 ops.append(['hcycle'])
+            elif name == 'hdelgc':
+                ops.append(['hdelgc', rng.below(2)])
             elif name == 'fromh':
                 ops.append(['fromh', k, rng.choice(['direct', 'cast', 'castchar'])])
             elif name == 'collect':
